@@ -253,11 +253,26 @@ def m_str_pred(ex, a, m):
     if isinstance(p, Agg) and p.kind == 'closure' or isinstance(p, FnItem): raise Unsupported(f'str::{op} with a predicate')
     s0, pt = conc(ex, sv), conc(ex, as_str(a[1]))
     return Bool({'contains': pt in s0, 'starts_with': s0.startswith(pt), 'ends_with': s0.endswith(pt)}[op])
+def _digit_ranges(radix):
+    rs = [(ord('0'), min(ord('9'), ord('0') + radix - 1), ord('0'))]
+    if radix > 10: rs += [(ord('a'), ord('a') + radix - 11, ord('a') - 10), (ord('A'), ord('A') + radix - 11, ord('A') - 10)]
+    return rs
 @model('char::methods::<impl char>::is_digit')
 def m_is_digit(ex, a):
     c = a[0]; radix = pyint(ex, a[1])
-    if radix != 10: raise Unsupported('radix')
-    return Bool(z3.And(z3.UGE(c.bv, ord('0')), z3.ULE(c.bv, ord('9'))))
+    k = c.concrete()
+    if k is not None: return Bool(any(lo <= k <= hi for lo, hi, _ in _digit_ranges(radix)))
+    return Bool(z3.Or(*[z3.And(z3.UGE(c.bv, lo), z3.ULE(c.bv, hi)) for lo, hi, _ in _digit_ranges(radix)]))
+@model('char::methods::<impl char>::to_digit')
+def m_to_digit(ex, a):
+    c = a[0]; radix = pyint(ex, a[1]); k = c.concrete()
+    if k is not None:
+        for lo, hi, base in _digit_ranges(radix):
+            if lo <= k <= hi: return some(Int(k - base, 'u32'))
+        return none()
+    which = ex.choose([((lo, hi, base), z3.And(z3.UGE(c.bv, lo), z3.ULE(c.bv, hi))) for lo, hi, base in _digit_ranges(radix)] + [(None, z3.And(*[z3.Not(z3.And(z3.UGE(c.bv, lo), z3.ULE(c.bv, hi))) for lo, hi, _ in _digit_ranges(radix)]))])
+    if which is None: return none()
+    return some(Int(z3.simplify(c.bv - which[2]), 'u32'))
 _CAT = {}
 def category_ranges(prefixes):
     key = tuple(prefixes)
@@ -1278,13 +1293,20 @@ def m_rc_partial_ord(ex, a, m):
 def m_rc_ord(ex, a, m):
     f = ex.prog.by_key[('Ord', m.group(2), 'cmp')]
     return ex.run_fn(f, [Ptr(deref_ptr(a[0]).cell), Ptr(deref_ptr(a[1]).cell)])
-@model_rx(r'^<BTreeMap<.*> as Extend<.*>>::extend$')
+@model_rx(r'^<(?:BTreeMap|HashMap)<.*> as Extend<.*>>::extend$')
 def m_map_extend(ex, a, m):
     mp = a[0].cell.v; src = a[1]
     if isinstance(src, MapV):
         for k in src.keys(): mp.d[k] = Cell(src.d[k].v)
         return UNIT
-    raise Unsupported('map extend from iterator')
+    # any iterator / collection of (key, value) pairs: inserted in order (a later pair replaces an earlier one with the same key)
+    it = src if isinstance(src, IterV) else make_iter(ex, src)
+    while True:
+        x = iter_next(ex, it)
+        if x is None: return UNIT
+        x = deref_all(x) if isinstance(x, Ptr) else x
+        k = x.fields[0].v; v = x.fields[1].v
+        mp.d[map_key(ex, mp, deref_all(k) if isinstance(k, Ptr) else k)] = Cell(v)
 
 # ------------------------------------------------------------------------------------------ integer methods (core::num)
 def _ovf(op, x, y, sg):
